@@ -18,6 +18,10 @@ REP_RULE = ("reports stream: 1-3 assets (colliding row numbers, rows not time-so
             "five generators per case run in a forked child, output read back with an independent zipfile+ElementTree ODS reader and compared row by row with the "
             "Lean abstract-report model; non-trivial = report generated with >= 3 data rows; distinct by content hash")
 
+PARSER_RULE = ("parser stream: generated ODS + INI pairs (random column permutations with unmapped junk columns, tables in any order, blank rows, lower-case keywords, "
+               "optional columns present/absent, crypto-fee acquisitions, numbers with up to 14 decimals) parsed by the real Configuration + parse_ods and by the Lean parser model; "
+               "non-trivial = >= 3 transactions parsed, or a faulty input rejected; distinct by content hash")
+
 PROPS = {
     "C01": {"streams": [S("engine", 2000, 160000, ["fractions"])], "rule": ENGINE_RULE,
             "assumptions": ["hypothesis SameInstantSameYear (finding F7): events at one instant share a local year"],
@@ -47,7 +51,7 @@ PROPS = {
             "technique": "Lean 4 proof: insertion-ordered group-by yields one line per key, each the in-order sum of exactly its fractions; correspondence of yearly lines",
             "text": "Theorem lines_are_sums (group_spec); yearly lines of the real ComputedData compared with the model and with an independent group-by oracle.",
             "design_ref": "DESIGN.md §3 C06"},
-    "C07": {"streams": [S("pipeline", 1200, 60000, ["balances", "status-balance", "status-crash"])], "rule": PIPE_RULE,
+    "C07": {"streams": [S("pipeline", 1200, 60000, ["balances", "status-balance", "status-crash"]), S("reports", 40, 2000, ["taxsheet", "status"])], "rule": PIPE_RULE,
             "assumptions": ["hypotheses LocalDatesMonotone (F6), OutWithFeeConsistent, FeeFiatVisible (F12)"],
             "technique": "Lean 4 proof: balance after any prefix = initial + acquired + received - sent per account; correspondence of BalanceSet; reconciliation oracle",
             "text": "Theorem final_is_flows for every transaction list and account; balances of the real BalanceSet compared with the model; oracle recomputes flows and lot reconciliation.",
@@ -57,16 +61,25 @@ PROPS = {
             "technique": "Lean 4 proof: replay fails iff some account is below tolerance after some chronological prefix (checking only debited accounts suffices); -n never rejects",
             "text": "Theorems rejected_iff_some_prefix_overdrawn and allowed_never_rejects; overdrawn status and account compared with the model; brute-force prefix oracle.",
             "design_ref": "DESIGN.md §3 C08"},
-    "C09": {"streams": [S("pipeline", 800, 40000, ["fractions", "figures", "long", "numbering", "yearly", "balances", "price", "status-engine", "status-crash"])], "rule": PIPE_RULE,
+    "C09": {"streams": [S("pipeline", 800, 40000, ["fractions", "figures", "long", "numbering", "yearly", "balances", "price", "sums", "status-engine", "status-crash"])], "rule": PIPE_RULE,
             "assumptions": ["hypothesis LocalDatesMonotone (F6)"],
             "technique": "Lean 4 proof: prefix theorem on the greedy spec (later lots/events cannot change earlier fractions) carried to the engine by refinement; correspondence on (history, truncated history) pairs",
             "text": "Theorem earlier_fractions_unchanged (runS_prefix); oracle compares the to-date-limited run with the run on the truncated history, on the real code.",
             "design_ref": "DESIGN.md §3 C09"},
-    "C10": {"streams": [S("pipeline", 800, 40000, ["views", "fractions", "figures", "numbering", "yearly", "balances", "price", "status-crash"])], "rule": PIPE_RULE,
+    "C10": {"streams": [S("pipeline", 800, 40000, ["views", "fractions", "figures", "numbering", "yearly", "balances", "price", "sums", "status-crash"])], "rule": PIPE_RULE,
             "assumptions": ["hypothesis LocalDatesMonotone (F6)"],
             "technique": "Lean 4 proof: a window view is the filter by [from,to] under monotone local dates; correspondence of ComputedData for random windows",
             "text": "Theorem view_is_filter; filtered ComputedData compared with the model; oracle compares filtered run with the filter of the unfiltered run on the real code.",
             "design_ref": "DESIGN.md §3 C10"},
+    "C11": {"streams": [S("parser", 400, 20000, ["fields", "accept-reject"])], "rule": PARSER_RULE, "assumptions": ["dateutil's string parsing is an oracle supplied by the harness (not modelled)"],
+            "technique": "Lean 4 proof: layout independence of row construction (any column permutation, unmapped columns), ids = row numbers strictly increasing (no row twice), failing row aborts (no row skipped); regenerated parser constants; field-by-field correspondence of parse_ods",
+            "text": "Theorems in_row_layout_independent, permuted_columns_same_fields, ids_are_row_numbers, no_row_skipped on the parser model; generated ODS+INI pairs parsed by the real code and the model and compared field by field; oracle compares with the generator's own records.",
+            "design_ref": "DESIGN.md §3 C11"},
+    "C12": {"streams": [S("parser", 500, 25000, ["accept-reject", "fields"])], "rule": PARSER_RULE + "; C12: 75% of the cases carry exactly one documented fault (23 cell-level fault kinds at a random applicable row/field, 6 structural faults)",
+            "assumptions": ["known findings F8 (rp2_jp -f -t refused only after two reports) and F14 (generators field ignored) concern the CLI/config layer"],
+            "technique": "Lean 4 proof: accepted => valid for the three row constructors (each documented field-level fault makes the constructor fail), failing row aborts the parse, IN table required; accept/reject correspondence on single-fault inputs",
+            "text": "Theorems in/out/intra_row_accepted_is_valid, non_numeric_rejected, bad_row_aborts, in_table_required; every generated faulty input must be rejected by the real parser (oracle) and accept/reject must agree with the model.",
+            "design_ref": "DESIGN.md §3 C12", "partial": "config-file and command-line faults are exercised by the cli stream (sampling), not yet modelled in Lean"},
     "C13": {"streams": [S("reports", 60, 3000, ["inout", "taxsheet", "detail", "summary", "status"])], "rule": REP_RULE, "assumptions": [],
             "technique": "Lean 4 proof: every fraction numbered once in order, k/n labels = position among the event's fractions; correspondence of the abstract full report (all tables, cell values as doubles)",
             "text": "Theorems fractions_once_in_order, event_labels, rows_once on the model's numberFractions; rp2_full_report.ods read back and compared cell by cell with the Lean full-report model; oracle compares rows with ComputedData.",
